@@ -49,12 +49,13 @@ const K = 3
 type op struct {
 	kind byte // R W D (deadline, d = seconds, 0 = zero time)  w (Write d bytes)  v (Writev d one-byte buffers)  P (peer drains)  Z (sleep d s)  C (Close)
 	//           O (a Write beyond MaxWriteBufferSize: the connection closes itself with ErrOverflow)  X (the peer resets, then Write(1): EPIPE)
+	//           I (the peer sends one byte: inbound traffic, which renews nothing)
 	d int
 }
 
 func (o op) String() string {
 	switch o.kind {
-	case 'P', 'C', 'O', 'X':
+	case 'P', 'C', 'O', 'X', 'I':
 		return string(o.kind)
 	}
 	return fmt.Sprintf("%c%d", o.kind, o.d)
@@ -471,6 +472,8 @@ func (w *world) call(r *opRun) {
 	case 'X':
 		w.peer.Reset()
 		_, r.werr = w.conn.Write(ekit.Payload(4, 1))
+	case 'I':
+		w.peer.Write([]byte{7})
 	}
 }
 
@@ -524,7 +527,11 @@ func (w *world) end(r *opRun) {
 		case 'O', 'X':
 			w.failf("harness|%s did not close the connection (Write returned %v)", o, r.werr)
 		case 'w', 'v':
-			if r.werr != nil {
+			if r.werr != nil && errors.Is(r.werr, vsys.EAGAIN) {
+				// Writev into a full socket with an empty queue returns (0, EAGAIN) and queues nothing
+				// (Write queues instead); the call still "returned with an empty backlog"
+				w.counters["writev_eagain_nothing_accepted"]++
+			} else if r.werr != nil {
 				w.failf("harness|%s returned %v on an open connection", o, r.werr)
 				break
 			}
@@ -679,6 +686,7 @@ func body(c cfg) func() {
 		g := nbio.NewEngine(conf)
 		lastCounters, lastOutcome = w.counters, "setup-failed"
 		g.OnClose(w.onClose)
+		g.OnData(func(_ *nbio.Conn, data []byte) { w.tick(); w.counters["inbound_bytes_delivered"] += len(data) })
 		if err := g.Start(); err != nil {
 			vsched.Fail("harness|engine start: %v", err)
 			return
@@ -968,6 +976,22 @@ func build(tier string) []*vkit.Scenario {
 		}
 		for _, m := range modes {
 			add(cfg{mode: m, ops: l, p: 2}, 500)
+		}
+	}
+	// inbound traffic renews nothing in the core engine ("users should update the read deadline in
+	// time"): the deadlines must fire exactly as without it, in every epoll mode
+	for _, l := range [][]op{
+		{{'R', 5}, {'I', 0}}, {{'D', 5}, {'I', 0}, {'R', 9}}, {{'R', 5}, {'I', 0}, {'Z', 3}, {'I', 0}}, {{'W', 5}, {'I', 0}, {'w', 1}},
+	} {
+		for _, m := range ekit.Modes {
+			p := 2
+			if len(l) > 2 {
+				p = 1
+			}
+			if thorough {
+				p++
+			}
+			add(cfg{mode: m, ops: l, p: p}, 400)
 		}
 	}
 	all = append(all, keepaliveScenarios(tier)...)
